@@ -53,7 +53,22 @@ func RefType(t entities.IEDataType) (ref.Type, bool) { r, ok := refTypes[t]; ret
 var (
 	regOnce   sync.Once
 	regFields []ref.Field
+	regTaken  [][2]uint32
 )
+
+// RegistryTaken lists every (enterprise, id) present in the loaded registries, whatever the
+// data type.
+func RegistryTaken() [][2]uint32 {
+	RegistryFields()
+	return regTaken
+}
+
+// NewPoolArgs returns the arguments for gen.NewPool: registry + user elements of supported
+// types, and all taken ids.
+func NewPoolArgs() ([]ref.Field, [][2]uint32) {
+	known := append(append([]ref.Field{}, RegistryFields()...), UserFields()...)
+	return known, RegistryTaken()
+}
 
 // LoadRegistry loads the library registry once.
 func LoadRegistry() { regOnce.Do(func() { registry.LoadRegistry() }) }
@@ -72,6 +87,7 @@ func RegistryFields() []ref.Field {
 			if err != nil || ie == nil {
 				continue
 			}
+			regTaken = append(regTaken, [2]uint32{ent, uint32(id)})
 			t, ok := RefType(ie.DataType)
 			if !ok {
 				continue
